@@ -2,6 +2,7 @@ package main
 
 import (
 	"fmt"
+	"go/token"
 	"go/types"
 	"sort"
 	"strings"
@@ -166,6 +167,9 @@ func runC17(c *Ctx) {
 	checkUserFromCtx(c)
 	checkCtxWithUser(c)
 	checkScalarDecoders(c)
+	checkSentinelAgreementAndStaging(c)
+	// "records exactly the requested change": the comment a prefix designates (shared with C13)
+	checkC13Scans(c)
 }
 
 // gateCalls returns the UserFromCtx calls of fn whose context argument is the
@@ -526,5 +530,111 @@ func checkScalarDecoders(c *Ctx) {
 	}
 	if n == 0 {
 		c.Violate("R17.5", "expected:UnmarshalGQL", "module", "no UnmarshalGQL scalar decoder found (reference: entity.Id, entity.CombinedId, repository.Hash, …)")
+	}
+}
+
+// R17.6: producer and consumers of the 'no user' verdict agree. R17.7: only valid operations are staged.
+func checkSentinelAgreementAndStaging(c *Ctx) {
+	w := c.W
+	c.Doc("R17.6", "the way auth.UserFromCtx reports 'no user attached' and the way every caller tests for it agree: if the bare sentinel ErrNotAuthenticated is returned, == and errors.Is both work; if it is wrapped, every test must be errors.Is — a caller still comparing with == would take an anonymous request for a failure (the userIdentity query must answer null, the upload must answer 403)")
+	c.Doc("R17.7", "every editing function of package entities/bug appends the operation it built to the bug only after that operation's Validate() succeeded: a mutation refused for invalid arguments leaves nothing staged, the cached snapshot unchanged and the bug committable")
+	// R17.6 producer
+	fn := w.Func("api/auth", "UserFromCtx")
+	isSentinel := func(v ssa.Value) bool {
+		if u, isU := v.(*ssa.UnOp); isU {
+			if g, isG := u.X.(*ssa.Global); isG && g.Name() == "ErrNotAuthenticated" {
+				return true
+			}
+		}
+		return false
+	}
+	if fn != nil {
+		form := ""
+		eidx := errResultIndex(fn)
+		for _, r := range Returns(fn) {
+			ev := ReturnResult(r, eidx)
+			if isSentinel(ev) {
+				form = "bare"
+			}
+			if cv, isCall := ev.(*ssa.Call); isCall {
+				for _, a := range variadicOperands(cv.Common().Args[len(cv.Common().Args)-1]) {
+					if isSentinel(a) {
+						form = "wrapped"
+					}
+				}
+				for _, a := range cv.Common().Args {
+					if isSentinel(a) {
+						form = "wrapped"
+					}
+				}
+			}
+		}
+		nCons := 0
+		for _, f := range w.ModFns {
+			if isInstance(f) || w.isTestHelper(f) {
+				continue
+			}
+			for _, b := range f.Blocks {
+				for _, ins := range b.Instrs {
+					switch x := ins.(type) {
+					case *ssa.BinOp:
+						if (x.Op == token.EQL || x.Op == token.NEQ) && (isSentinel(x.X) || isSentinel(x.Y)) {
+							nCons++
+							c.Sites++
+							c.Check(form == "bare", "R17.6", funcName(f)+":tests-no-user-with-==", w.InstrPos(x), "== against the bare sentinel UserFromCtx returns", "this compares the error with == against ErrNotAuthenticated, but UserFromCtx returns it "+map[string]string{"wrapped": "wrapped", "": "in a form that was not recognised"}[form]+": an anonymous request is treated as a failure here (a query that should answer null returns an error, or a write endpoint no longer answers 'forbidden')")
+						}
+					case *ssa.Call:
+						if n, _ := callName(x.Common()); n == "errors.Is" && len(x.Common().Args) == 2 && isSentinel(stripConv(x.Common().Args[1])) {
+							nCons++
+							c.Sites++
+							c.Hold("R17.6", funcName(f)+":tests-no-user-with-errors.Is", w.InstrPos(x), "errors.Is works with either form")
+						}
+					}
+				}
+			}
+		}
+		if nCons == 0 {
+			c.Violate("R17.6", "expected:no-user-tests", "api", "no caller distinguishes 'no user' from a failure any more (reference: upload handler, userIdentity query)")
+		}
+	}
+	// R17.7
+	n := 0
+	for _, f := range w.ModFns {
+		if isInstance(f) || fnPkgPath(f) != modPath+"/entities/bug" || w.isTestHelper(f) || f.Parent() != nil {
+			continue
+		}
+		if f.Signature.Recv() != nil {
+			continue
+		}
+		for _, cl := range Calls(f) {
+			if !strings.HasSuffix(cl.Name, "Interface.Append") && cl.Name != "entities/bug.Bug.Append" {
+				continue
+			}
+			args := cl.Args()
+			if len(args) == 0 {
+				continue
+			}
+			n++
+			c.Sites++
+			c.seeFn(funcName(f))
+			op := stripConv(args[len(args)-1])
+			ok := false
+			for _, vc := range Calls(f) {
+				if !strings.HasSuffix(vc.Name, ".Validate") || vc.Value() == nil {
+					continue
+				}
+				recv := vc.Recv()
+				if recv == nil {
+					continue
+				}
+				if stripConv(recv) == op && dominatedBySuccess(vc.Value(), cl.Instr) {
+					ok = true
+				}
+			}
+			c.Check(ok, "R17.7", funcName(f)+":validate-before-append", w.InstrPos(cl.Instr), "appended after its Validate() succeeded", "the operation is appended to the bug without (or before) a successful Validate(): a refused edit stays staged, shows in the cached snapshot and makes every later commit of the bug fail")
+		}
+	}
+	if n < 8 {
+		c.Violate("R17.7", "expected:editing-functions", "entities/bug", fmt.Sprintf("%d operation-appending functions found (reference 10)", n))
 	}
 }
